@@ -189,7 +189,22 @@ Definition nth_z {A} (l : list A) (i : Z) : option A :=      (* python list inde
   let j := if (i <? 0)%Z then (n + i)%Z else i in
   if ((j <? 0) || (n <=? j))%Z then None else nth_error l (Z.to_nat j).
 
-Definition export_rows (d : doc) (o : opts) : res (list (list string)) :=
+(* the synthetic terminator row appended to an excerpt (to_measure given) whose last row does not start with '*-' *)
+Definition add_terminator (has_to : bool) (rows : list (list string)) : option (list (list string)) :=
+  match has_to, rev rows with
+  | true, last :: _ =>
+    match last with
+    | [] => None                                  (* rows[-1][0] -> IndexError; cannot happen: rows are non-empty *)
+    | c0 :: _ =>
+      if String.eqb c0 "*-" then Some rows
+      else let n := List.length last + count_str "*^" last - count_str "*v" last in
+           Some (rows ++ [repeat "*-" n])%list
+    end
+  | _, _ => Some rows
+  end.
+
+(* everything export_string collects before the terminator row *)
+Definition export_body (d : doc) (o : opts) : res (list (list string)) :=
   let m := Z.of_nat (List.length (d_mst d)) in
   (* export_options_validator *)
   if match o_from o with Some f => (f <? 0)%Z | None => false end then Err "ValueError"
@@ -231,23 +246,18 @@ Definition export_rows (d : doc) (o : opts) : res (list (list string)) :=
     | Ok (from_stage, rows0) =>
       match main_rows d o from_stage (S to_stage - from_stage) with
       | Err e => Err e
-      | Ok rows1 =>
-        let rows := (rows0 ++ rows1)%list in
-        let rows' :=
-          match o_to o, rev rows with
-          | Some _, last :: _ =>
-            match last with
-            | [] => None                                  (* rows[-1][0] -> IndexError; cannot happen: rows are non-empty *)
-            | c0 :: _ =>
-              if String.eqb c0 "*-" then Some rows
-              else let n := List.length last + count_str "*^" last - count_str "*v" last in
-                   Some (rows ++ [repeat "*-" n])%list
-            end
-          | _, _ => Some rows
-          end in
-        match rows' with None => Err "IndexError" | Some r => Ok r end
+      | Ok rows1 => Ok (rows0 ++ rows1)%list
       end
     end
+  end.
+
+Definition export_rows (d : doc) (o : opts) : res (list (list string)) :=
+  match export_body d o with
+  | Err e => Err e
+  | Ok rows => match add_terminator (match o_to o with Some _ => true | None => false end) rows with
+               | None => Err "IndexError"
+               | Some r => Ok r
+               end
   end.
 
 Definition tab : string := String (ascii_of_nat 9) "".
